@@ -741,6 +741,26 @@ func (a *idxAnalyzer) refine(z *zone, e ast.Expr, truth bool) {
 	if !ok {
 		return
 	}
+	// s != "" / s == "" on a tracked string: len(s) >= 1 / len(s) == 0
+	if be.Op == token.EQL || be.Op == token.NEQ {
+		var other ast.Expr
+		if tv, ok := a.info.Types[be.Y]; ok && tv.Value != nil && tv.Value.Kind() == constant.String && constant.StringVal(tv.Value) == "" {
+			other = be.X
+		} else if tv, ok := a.info.Types[be.X]; ok && tv.Value != nil && tv.Value.Kind() == constant.String && constant.StringVal(tv.Value) == "" {
+			other = be.Y
+		}
+		if other != nil {
+			if sk, ok := a.seqKey(other); ok {
+				nonEmpty := (be.Op == token.NEQ) == truth
+				if nonEmpty {
+					z.add(zeroTerm, "len("+sk+")", -1)
+				} else {
+					z.add("len("+sk+")", zeroTerm, 0)
+				}
+			}
+			return
+		}
+	}
 	op := be.Op
 	if !truth {
 		switch op {
